@@ -285,7 +285,13 @@ func New(cfg Config) *World {
 		}
 	}
 	w.D.LibWho = func(point string) string {
-		if !strings.HasPrefix(point, "manager.stream.") {
+		role := ""
+		switch {
+		case strings.HasPrefix(point, "manager.stream."):
+			role = "ms_"
+		case point == "manager.reader.dispatch":
+			role = "rd_"
+		default:
 			return ""
 		}
 		// the server's manager goroutines are created by the ServeOne goroutine
@@ -294,9 +300,9 @@ func New(cfg Config) *World {
 			sv = w.svSeenA.Load()
 		}
 		if c := vf.SelfCreator(); c != 0 && c == sv {
-			return "ms_srv"
+			return role + "srv"
 		}
-		return "ms_cli"
+		return role + "cli"
 	}
 	w.D.ArmPoints(real...)
 	w.D.Go("sv", func() string { return ErrClass(srv.ServeOne(sctx, w.SP)) })
@@ -493,14 +499,14 @@ func (w *World) Apply(st Stim) bool {
 		return true
 	case "fault":
 		p := w.pipe(st.E)
-		if c, _, _, _, _ := p.Stats(); c > 0 {
+		if c, _, _, _, _ := p.Stats(); c > 0 || p.Failed() {
 			return false
 		}
 		w.mark()
 		p.Fail()
 		return true
 	case "point":
-		if strings.HasPrefix(st.T, "ms_") { // a library goroutine parked at manager.stream.ctx
+		if strings.HasPrefix(st.T, "ms_") || strings.HasPrefix(st.T, "rd_") { // a library goroutine parked at an armed point
 			if w.Last().Lib[st.T] != "pt" {
 				return false
 			}
@@ -758,6 +764,10 @@ func (w *World) Flow(max int, hpolicy func(w *World) string) int {
 			w.Step(Stim{K: "deliver", E: "srv"})
 		case w.CP.ReadPending() && len(w.units["cli"]) > 0:
 			w.Step(Stim{K: "deliver", E: "cli"})
+		case w.Last().Lib["rd_srv"] == "pt":
+			w.Step(Stim{K: "point", T: "rd_srv"})
+		case w.Last().Lib["rd_cli"] == "pt":
+			w.Step(Stim{K: "point", T: "rd_cli"})
 		default:
 			a := ""
 			if hpolicy != nil && strings.HasPrefix(w.Last().App["sv"], "h:") {
